@@ -55,7 +55,7 @@ fn repo_frame(bt: &str) -> Option<(String, String)> {
     let lines: Vec<&str> = bt.lines().collect();
     for i in 1..lines.len() {
         let l = lines[i].trim_start();
-        if let Some(rest) = l.strip_prefix("at /repo/") {
+        if let Some(rest) = l.strip_prefix("at ").and_then(|x| x.strip_prefix(repo_root().as_str())) {
             // previous line: "  N: symbol"
             let sym = lines[i - 1].trim_start();
             let sym = sym.split_once(": ").map_or(sym, |x| x.1);
@@ -90,5 +90,19 @@ pub fn install_panic_hook() {
 }
 
 pub fn strip_repo(p: &str) -> &str {
-    p.strip_prefix("/repo/").unwrap_or(p)
+    p.strip_prefix(repo_root().as_str()).unwrap_or(p)
+}
+
+/// Root of the repository the harness was built against, with a trailing slash: "/repo/", or
+/// the scratch worktree named by $VH_REPO when a check is run against a seeded change
+/// (scripts/check_against.sh), so that panic sites read the same in both.
+pub fn repo_root() -> &'static String {
+    static ROOT: std::sync::OnceLock<String> = std::sync::OnceLock::new();
+    ROOT.get_or_init(|| {
+        let mut r = std::env::var("VH_REPO").unwrap_or_else(|_| "/repo".to_string());
+        if !r.ends_with('/') {
+            r.push('/');
+        }
+        r
+    })
 }
